@@ -71,7 +71,8 @@ Theorem c12_batch_code : forall e st levels,
 Proof. exact main_batch_code. Qed.
 Print Assumptions c12_batch_code.
 
-(* all finite histories of LeveledUpdateBatch calls and cache expiries on a fresh executor: the
+(* all finite histories of LeveledUpdateBatch calls, BE cpuset recoveries and cache expiries on a
+   fresh executor: the
    property's code, as Extract.v computes it on the model's own observable, is 0 *)
 Theorem c12_history_holds : forall e fs ops,
   validb e fs = true -> hist_hyps e (mkSt fs []) ops -> Forall (plain_op e) ops ->
@@ -107,6 +108,21 @@ Theorem c12_be_idle : forall e st paths oldset newset,
   snd (be_apply e st paths oldset newset) = [].
 Proof. exact main_be_idle. Qed.
 Print Assumptions c12_be_idle.
+
+(* recoverCPUSetForBECPUManager / recoverCPUSetIfNeed (one top-down pass growing every walked
+   cgroup to the recovered cpuset): every prefix valid, walked cgroups end at the recovered set,
+   only cgroups whose cpuset differs are written, the property's code on the model is 0 *)
+Theorem c12_recover : forall e st paths newset,
+  rec_hyps e (sfs st) paths newset = true -> coherent (scache st) (sfs st) ->
+  let res := rec_apply e st paths newset in
+  every_prefix_valid e (sfs st) (snd res)
+  /\ (forall k, get (sfs (fst res)) k = if inb k paths then newset else get (sfs st) k)
+  /\ no_redundant e (sfs st) (rec_updaters paths newset) (snd res)
+  /\ prop_code e (sfs st) [rec_updaters paths newset] (snd res) (sfs (fst res)) = 0
+  /\ validb e (sfs (fst res)) = true
+  /\ coherent (scache (fst res)) (sfs (fst res)).
+Proof. exact main_recover. Qed.
+Print Assumptions c12_recover.
 
 (* the order on cpu sets is containment of cpu ids *)
 Theorem c12_cpuset_containment : forall a b,
@@ -156,6 +172,15 @@ Example c12_trace_nonvacuous :
   [ [(0, 15); (1, 300); (2, 15); (3, 200); (4, 5); (5, 100); (4, 4); (2, 12); (0, 12)];
     [(1, -1); (4, 12); (4, 8); (5, 20); (2, 8)] ].
 Proof. exact ex_history_trace. Qed.
+
+(* the recover hypotheses hold after a suppression; writing the container first (the order of the
+   seeded mutant C12-m4) would pass through an invalid hierarchy *)
+Example c12_rec_hyps_nonvacuous :
+  let e := mkEnv 0 [(0, 0); (1, 0); (2, 0)] [(1, 0); (2, 1)] in
+  rec_hyps e [(0, 12); (1, 12); (2, 12)] [0; 1; 2] 15 = true
+  /\ snd (rec_apply e (mkSt [(0, 12); (1, 12); (2, 12)] []) [0; 1; 2] 15) = [(0, 15); (1, 15); (2, 15)]
+  /\ validb e (apply_writes e [(2, 15)] [(0, 12); (1, 12); (2, 12)]) = false.
+Proof. exact ex_rec_hyps. Qed.
 
 Example c12_be_hyps_nonvacuous :
   be_hyps (mkEnv 1 [(0, 0); (1, 0); (2, 0)] [(1, 0); (2, 1)]) [(0, 3); (1, 3); (2, 1)] [0; 1; 2] 3 12 = true
